@@ -226,6 +226,10 @@ func runC09(r *Rng, n int, replay string) {
 		prefix := ""
 		for d := 0; d < k%3; d++ {
 			_ = hackpadfs.Mkdir(fs, "s", 0o755)
+			if k%2 == 1 {
+				// the parent has already reported an error when the view is taken (nothing it remembered may leak into the view)
+				_, _ = hackpadfs.Stat(fs, "nope-before-sub")
+			}
 			sub, err := hackpadfs.Sub(fs, "s")
 			if err != nil {
 				panic(err)
